@@ -8,6 +8,7 @@ import (
 	"strconv"
 	"strings"
 	"sync"
+	"sync/atomic"
 	"time"
 
 	"golang.org/x/time/rate"
@@ -441,7 +442,26 @@ func (w *pWorld) runCase(caseSeed uint64, focus string) {
 			k := r.Intn(w.nslots)
 			w.loadFails = r.Intn(8) == 0
 			done := make(chan struct{})
+			atomic.StoreInt32(&w.syncRegions, 0)
+			race := r.Intn(2) == 0
+			if race {
+				atomic.StoreInt32(&w.holdSync, 1)
+			}
 			go func() { defer close(done); w.setRole(pRole{kind: "sync"}); w.locals[k].VerifSync() }()
+			if race {
+				// a cloud call of a factory worker is answered while the sync is under way: what the sync read from the cloud and
+				// what the worker records must not be applied in the wrong order (a sync that gives the lock up between reading
+				// and applying is held back until the worker has recorded its answer)
+				time.Sleep(time.Duration(300+r.Intn(400)) * time.Microsecond)
+				for n := 0; n < 4 && w.releaseGate(false); n++ {
+				}
+				time.Sleep(time.Duration(600+r.Intn(600)) * time.Microsecond)
+				atomic.StoreInt32(&w.holdSync, 0)
+				if atomic.SwapInt32(&w.syncHeld, 0) > 0 {
+					w.c.Count("sync-second-region-held-back")
+				}
+				w.kick()
+			}
 			select {
 			case <-done:
 			case <-time.After(10 * time.Second):
